@@ -24,10 +24,17 @@ import (
 
 const childEnv = "VERIF_C14_CHILD"
 
+// cap of a goroutine stack in the child: the calls it is given on cyclic values either stop after a
+// few levels (detector, or size limit with an almost full sink) or never
+const childMaxStack = 2 << 20
+
 type Probe struct {
 	G       Graph  `json:"g"`
 	Entry   string `json:"entry"`   // Serialize | BuildParamToNative | Stringify | Dump
 	Prefill int    `json:"prefill"` // bytes already in the sink
+	// BigStack: run alone in a child with Go's default stack cap (1 GB) and a long timeout: the
+	// witness with an empty sink, which the size limit stops only after ~2*10^5 nested calls
+	BigStack bool `json:"bigstack,omitempty"`
 }
 
 type ProbeResult struct {
@@ -45,7 +52,9 @@ func init() {
 	if os.Getenv(childEnv) == "" {
 		return
 	}
-	debug.SetMaxStack(8 << 20)
+	if os.Getenv(childEnv) != "big" {
+		debug.SetMaxStack(childMaxStack)
+	}
 	debug.SetMemoryLimit(768 << 20)
 	var probes []Probe
 	if err := json.NewDecoder(bufio.NewReaderSize(os.Stdin, 1<<20)).Decode(&probes); err != nil {
@@ -109,7 +118,28 @@ func runProbe(p Probe) ProbeResult {
 func hexOf(b []byte) string { return fmt.Sprintf("%x", b) }
 
 // runInChildren runs the probes in child processes and returns one result per probe.
-func runInChildren(probes []Probe, perChild time.Duration) []ProbeResult {
+func runInChildren(all []Probe, perChild time.Duration) []ProbeResult {
+	out := make([]ProbeResult, len(all))
+	var small []Probe
+	var smallIdx []int
+	for i, p := range all {
+		if p.BigStack {
+			r := runBatch([]Probe{p}, 10*perChild, "big")
+			out[i] = r[0]
+			out[i].I = i
+			continue
+		}
+		small = append(small, p)
+		smallIdx = append(smallIdx, i)
+	}
+	for k, r := range runBatch(small, perChild, "1") {
+		out[smallIdx[k]] = r
+		out[smallIdx[k]].I = smallIdx[k]
+	}
+	return out
+}
+
+func runBatch(probes []Probe, perChild time.Duration, mode string) []ProbeResult {
 	res := make([]ProbeResult, len(probes))
 	self, err := os.Executable()
 	if err != nil {
@@ -120,7 +150,7 @@ func runInChildren(probes []Probe, perChild time.Duration) []ProbeResult {
 		in, _ := json.Marshal(probes[start:])
 		ctx, cancel := context.WithTimeout(context.Background(), perChild)
 		cmd := exec.CommandContext(ctx, self)
-		cmd.Env = append(os.Environ(), childEnv+"=1", "GOMEMLIMIT=768MiB")
+		cmd.Env = append(os.Environ(), childEnv+"="+mode, "GOMEMLIMIT=768MiB")
 		cmd.Stdin = bytes.NewReader(in)
 		var stdout, stderr bytes.Buffer
 		cmd.Stdout = &stdout
